@@ -1,16 +1,30 @@
 """C18 - policies in force follow the policy files; built-in policies are untouchable."""
+from vf.driver import contract_units
+
 LEVEL = "other"
-EXPLANATION = ("History-level property over nested mutable dictionaries and the file system: no inductive "
-               "invariant was brought through the solvers.  What is decided: the REAL scan_policies / "
-               "read_policy_from_file / parse_policy are driven through every sequence of directory events "
-               "(write one of several contents, break in several ways, remove; a scan after each) up to a "
-               "stated depth and compared after every scan with an abstract specification written from the "
-               "property text.  This is a bounded stand-in, labelled bounded, not a proof.")
-ASSUMPTIONS = ["only the three file-system touch points (directory listing, mtime, open) are replaced by an "
-               "in-memory directory; mtimes strictly increase with every change",
-               "one directory event between two scans"]
+MODULES = ["contracts.c_monitor"]
+EXPLANATION = ("Contracts on the real monitor and parser: the two cache-stack helpers have exact postconditions "
+               "(disassociate drops exactly the entries of the file, order kept; restore_or_delete brings back the "
+               "most recently shadowed definition and its file, or removes the name from store, map and cache); "
+               "parse_policy / read_policy_from_file raise nothing but ValueError and reject a document as a whole "
+               "at the first unknown object type, operation, permission or section; scan_policies keeps a "
+               "representation invariant of the three name-keyed dictionaries (key sets as z3 sets) through every "
+               "loop, from which 'the built-in policies are never written or removed' and 'a refused file changes "
+               "no policy' follow for every history; it raises nothing.  The ordering clause of the property (each "
+               "name maps to the most recently loaded file that still defines it, across several files and scans) "
+               "is decided only by the bounded stand-in: the REAL scan_policies driven through every sequence of "
+               "directory events up to a stated depth and compared with an abstract specification.")
+ASSUMPTIONS = ["bounded history check: only the three file-system touch points (directory listing, mtime, open) are "
+               "replaced by an in-memory directory; mtimes strictly increase with every change; one directory "
+               "event between two scans",
+               "a file named by the directory listing can be stat-ed, opened and read during the same scan",
+               "json.loads returns one of the seven JSON types or raises",
+               "entries of one cache stack carry pairwise different times (the clock advances between scans)",
+               "set iteration order is not modelled (unspecified in Python); times compared as mathematical numbers"]
 
 
 def units(ctx):
     from vf import bounded
-    return bounded.units(["policy_monitor"], ctx)
+    us = contract_units("C18", MODULES, ctx)
+    us += bounded.units(["policy_monitor"], ctx)
+    return us
